@@ -24,8 +24,22 @@ class _PersistentWiring:
         }
 
     def set_extra_state(self, state):
-        self.kernel_pairs = tuple(p.to(self.device) for p in state["kernel_pairs"])
-        self.indices = [tuple(i.to(self.device) for i in level) for level in state["indices"]]
+        pairs = tuple(p.to(self.device) for p in state["kernel_pairs"])
+        # The pairs are positions inside the receptive field (+ a channel): they must fit THIS layer. The window
+        # positions are recomputed from this layer's own geometry, never taken from the checkpoint.
+        rf = self.receptive_field_size
+        limits = (tuple(rf) if isinstance(rf, (tuple, list)) else (rf,) * len(self.in_dim)) + (self.channels,)
+        fits = len(pairs) == len(self.kernel_pairs) and all(
+            p.shape == own.shape and p.numel() > 0 and int(p.min()) >= 0
+            and all(int(p[..., d].max()) < lim for d, lim in enumerate(limits))
+            for p, own in zip(pairs, self.kernel_pairs)
+        )
+        if not fits:
+            raise ValueError(
+                "the persisted wiring does not fit this layer (receptive field, channels, kernels or tree depth differ)"
+            )
+        self.kernel_pairs = pairs
+        self.indices = self.get_indices_from_kernel_pairs(pairs)
 
     def _load_from_state_dict(self, state_dict, prefix, *args, **kwargs):
         # checkpoints written before the wiring was persisted carry no extra state: keep the current wiring
